@@ -112,6 +112,8 @@ static void check_receiver(Ctx &c, int entry, const Bytes &f, const Part &part)
         Exact buf((size_t)cap);
         mc::crash_context("C04.%s.receiver.memory", gs::codec_name(c.codec));
         std::unique_ptr<gs::Receiver> r(gs::make_receiver(c.codec, buf.p, cap));
+        if (extra)
+            r->reinit(1); // the second receiver is set up through setbuf() (configurable) / setbuf_v1 again (legacy)
         for (int rep = 0; rep < 2; rep++)
         {
             for (size_t i = 0; i < f.size(); i++)
@@ -560,6 +562,138 @@ static void alphabet_constants_case()
     mc::outcome(gs::codec_name(codec));
     if (!d.empty())
         mc::violation(mc::fmt("C04.%s.alphabet_constants", gs::codec_name(codec)), "%s: %s", gs::codec_name(codec), d.c_str());
+}
+
+// ---- a receiver with history: the previous transmission was cut, then the encoder's output arrives -----------
+// frame(p0) (the library's own encoding) cut after every number of bytes - in particular right behind the start marker
+// and right behind an escape byte - then encode(p1) encode(p2).  START != STOP: both must come out, exactly on their
+// last bytes; START == STOP: the second must (the statement of C05 allows the first to be lost there).
+// p0: all payloads of length 1..3 over the codec's 9-symbol alphabet; (p1,p2): 16 pairs; capacity 8.
+static std::vector<uint8_t> alphabet(int codec);
+static Bytes lib_encode(int codec, const Bytes &p)
+{
+    Exact in(p.data(), p.size());
+    Exact out(2 * p.size() + 4);
+    int ret = gs::encode_raw(codec, in.p, p.size(), out.p);
+    return (ret > 0 && (size_t)ret <= 2 * p.size() + 4) ? Bytes(out.p, out.p + ret) : Bytes();
+}
+static void cut_then_frames_case(int codec)
+{
+    static std::vector<uint8_t> A[gs::NCODEC];
+    if (A[codec].empty())
+        A[codec] = alphabet(codec);
+    const std::vector<uint8_t> &a = A[codec];
+    gs::Markers M = gsref::golden(codec);
+    int first = mc::choose(9 + 81 + 729);
+    Bytes p0;
+    if (first < 9)
+        p0 = {a[first]};
+    else if (first < 90)
+        p0 = {a[(first - 9) / 9], a[(first - 9) % 9]};
+    else
+        p0 = {a[(first - 90) / 81], a[(first - 90) / 9 % 9], a[(first - 90) % 9]};
+    mc::crash_context("C04.%s.cut_transmission.memory", gs::codec_name(codec));
+    Bytes f0 = lib_encode(codec, p0);
+    mc::describe("codec=%s encode(%s)=%s cut after every 0..%zu bytes, then encode(p1) encode(p2) for 16 pairs", gs::codec_name(codec),
+                 gsref::hex(p0).c_str(), gsref::hex(f0).c_str(), f0.empty() ? 0 : f0.size() - 1);
+    mc::nontrivial();
+    std::vector<Bytes> P = {Bytes{}, Bytes{'a'}, Bytes{M.start}, Bytes{M.stub, M.stop}}, F;
+    for (const Bytes &p : P)
+        F.push_back(lib_encode(codec, p));
+    uint64_t n = 0;
+    for (size_t cut = 0; cut < f0.size(); cut++)
+        for (int i1 = 0; i1 < 4; i1++)
+            for (int i2 = 0; i2 < 4; i2++)
+            {
+                n++;
+                const int cap = 8;
+                Exact buf((size_t)cap);
+                std::unique_ptr<gs::Receiver> r(gs::make_receiver(codec, buf.p, cap));
+                Bytes s(f0.begin(), f0.begin() + cut);
+                size_t e1 = s.size() + F[i1].size() - 1;
+                s.insert(s.end(), F[i1].begin(), F[i1].end());
+                size_t e2 = s.size() + F[i2].size() - 1;
+                s.insert(s.end(), F[i2].begin(), F[i2].end());
+                bool got1 = false, got2 = false, ok1 = false, ok2 = false;
+                for (size_t i = 0; i < s.size(); i++)
+                    if (r->feed(s[i]) == gs::NEWPACKAGE)
+                    {
+                        if (i == e1)
+                            got1 = true, ok1 = r->packet() == P[i1];
+                        if (i == e2)
+                            got2 = true, ok2 = r->packet() == P[i2];
+                    }
+                bool need1 = !M.same() || cut == 0;
+                if ((need1 && !(got1 && ok1)) || !(got2 && ok2))
+                    mc::violation(mc::fmt("C04.%s.cut_transmission.%s_frame_%s", gs::codec_name(codec), (need1 && !(got1 && ok1)) ? "first" : "second",
+                                          ((need1 && !got1) || (!(need1 && !(got1 && ok1)) && !got2)) ? "not_delivered" : "delivered_wrong"),
+                                  "stream=%s: transmission of %s cut after %zu bytes, then frames of %s (ends at byte %zu) and %s (ends at byte %zu)",
+                                  gsref::hex(s).c_str(), gsref::hex(p0).c_str(), cut, gsref::hex(P[i1]).c_str(), e1, gsref::hex(P[i2]).c_str(), e2);
+                mc::outcome(mc::fmt("%s cut got=%d%d", gs::codec_name(codec), got1, got2));
+            }
+    mc::crash_context("C04.harness");
+    if (n > 1)
+        mc::more_cases(n - 1, n - 1);
+}
+
+// ---- both alphabets of the configurable codec (and the legacy one) at work in one process ----------------------
+// Fresh worker process per case (mc::request_restart): two receivers of different codecs are created and the encoder
+// outputs for the same payload are fed to them alternately, byte by byte; which receiver gets the first byte of the
+// process is a case dimension.  Each must report exactly one packet, on its last byte, equal to the payload - twice.
+static void two_alphabets_case()
+{
+    static const int PAIR[3][2] = {{gs::CFG_V1, gs::CFG_V0}, {gs::CFG_V1, gs::LEGACY}, {gs::CFG_V0, gs::LEGACY}};
+    int first = mc::choose(3 * 2 * 12);
+    mc::request_restart();
+    int pi = first % 12, order = first / 12 % 2, pr = first / 24;
+    int codec[2] = {PAIR[pr][order], PAIR[pr][1 - order]};
+    Bytes p[2], f[2];
+    for (int t = 0; t < 2; t++)
+    {
+        gs::Markers M = gsref::golden(codec[t]);
+        Bytes PP[12] = {{}, {'a'}, {M.start}, {M.stop}, {M.stub}, {M.start, M.start}, {'a', M.start, 'b'}, {M.stub, M.stop}, {M.start, 'a', M.stub},
+                        {0xFF}, {M.c_start, M.c_stub}, {'a', 'b', 'c', M.start}};
+        p[t] = PP[pi];
+        mc::crash_context("C04.two_alphabets.memory");
+        f[t] = lib_encode(codec[t], p[t]);
+    }
+    mc::describe("fresh process; receiver %s gets the first byte, alternating with %s; payloads %s / %s, each frame twice", gs::codec_name(codec[0]),
+                 gs::codec_name(codec[1]), gsref::hex(p[0]).c_str(), gsref::hex(p[1]).c_str());
+    mc::nontrivial();
+    Exact b0(8), b1(8);
+    std::unique_ptr<gs::Receiver> r[2] = {std::unique_ptr<gs::Receiver>(gs::make_receiver(codec[0], b0.p, 8)),
+                                          std::unique_ptr<gs::Receiver>(gs::make_receiver(codec[1], b1.p, 8))};
+    Bytes s[2];
+    for (int t = 0; t < 2; t++)
+    {
+        s[t] = f[t];
+        s[t].insert(s[t].end(), f[t].begin(), f[t].end());
+    }
+    bool bad[2] = {false, false};
+    for (size_t i = 0; i < s[0].size() || i < s[1].size(); i++)
+        for (int t = 0; t < 2; t++)
+            if (i < s[t].size() && !bad[t])
+            {
+                gs::Status st = r[t]->feed(s[t][i]);
+                bool last = (i + 1) % f[t].size() == 0;
+                if (last != (st == gs::NEWPACKAGE) || (last && r[t]->packet() != p[t]))
+                {
+                    bad[t] = true;
+                    mc::violation(mc::fmt("C04.two_alphabets.%s.%s", gs::codec_name(codec[t]), t == 0 ? "fed_first" : "fed_second"),
+                                  "other receiver: %s; payload=%s stream=%s byte %zu answered %s%s", gs::codec_name(codec[1 - t]),
+                                  gsref::hex(p[t]).c_str(), gsref::hex(s[t]).c_str(), i, gs::status_name(st),
+                                  last && st == gs::NEWPACKAGE ? " with wrong content" : "");
+                }
+            }
+    mc::crash_context("C04.harness");
+    mc::outcome(mc::fmt("%s+%s ok=%d%d", gs::codec_name(codec[0]), gs::codec_name(codec[1]), !bad[0], !bad[1]));
+}
+
+MC_INIT
+{
+    mc::add_check("two_alphabets_one_process", two_alphabets_case);
+    for (int codec = 0; codec < gs::NCODEC; codec++)
+        mc::add_check(mc::fmt("cut_then_frames.%s", gs::codec_name(codec)), [codec] { cut_then_frames_case(codec); });
 }
 
 MC_INIT
